@@ -55,11 +55,21 @@ try:
     if race:
         ENV["CGO_ENABLED"] = "1"
     demo_dst = os.path.join(wt, pkg, "zz_seed_demo_test.go")
+    # further files of the demonstration (e.g. an export_test.go for an external test package)
+    extras = sorted(f for f in os.listdir(seed) if f.startswith("demo_") and f.endswith("_test.go") and f != "demo_test.go")
+    def put_extras():
+        for f in extras:
+            shutil.copy(os.path.join(seed, f), os.path.join(wt, pkg, "zz_seed_" + f))
+    def drop_extras():
+        for f in extras:
+            os.remove(os.path.join(wt, pkg, "zz_seed_" + f))
     # demo without patch
     shutil.copy(os.path.join(seed, "demo_test.go"), demo_dst)
+    put_extras()
     rc0, out0 = sh("go test %s-vet=off -count=1 -run '%s' ./%s" % (race, runre, pkg), wt)
     res["demo_without_patch"] = "PASS" if rc0 == 0 else "FAIL"
     os.remove(demo_dst)
+    drop_extras()
     # apply patch; build; suite
     rc, out = sh("git apply %s" % patch, wt)
     assert rc == 0, out
@@ -73,6 +83,7 @@ try:
         missing = suite(wt) & missing  # tolerate one-off flakes: must be missing twice
     res["baseline_tests_not_passing_with_patch"] = sorted(missing)
     shutil.copy(os.path.join(seed, "demo_test.go"), demo_dst)
+    put_extras()
     rc1, out1 = sh("go test %s-vet=off -count=1 -run '%s' ./%s" % (race, runre, pkg), wt)
     res["demo_with_patch"] = "PASS" if rc1 == 0 else "FAIL"
     res["demo_with_patch_tail"] = out1[-600:]
@@ -84,6 +95,8 @@ try:
         os.makedirs(dst, exist_ok=True)
         shutil.copy(patch, os.path.join(dst, "patch.diff"))
         shutil.copy(os.path.join(seed, "demo_test.go"), os.path.join(dst, "demo_test.go"))
+        for f in extras:
+            shutil.copy(os.path.join(seed, f), os.path.join(dst, f))
         meta = {}
         try:
             meta = json.load(open(os.path.join(seed, "meta.json")))
